@@ -389,6 +389,8 @@ class Fn:
             nm = c.name()
             if nm in ("core::mem::size_of", "core::mem::align_of"):
                 nm = "%s::<%s>" % (nm, ",".join(c.ga))
+            elif c.local and any(re.match(r"^\d+$", g) for g in c.res_ga):
+                nm = "%s#%s" % (nm, ",".join(c.res_ga))
             return ("call", nm, tuple(self.expr(a, depth + 1) for a in c.args), (bb,))
         rv = self.blocks[bb]["s"][idx][2]
         return self.rvalue_expr(rv, depth + 1)
